@@ -57,6 +57,19 @@ macro_rules! run_width {
                     _ => ($M3::from_rotation_z(th), $M4::from_rotation_z(th), $Q::from_rotation_z(th), $A3::from_rotation_z(th)),
                 };
                 near($cx, $c, "from_rotation_axis", stringify!($M3), &exp, &f64s!(m3.to_cols_array()), tol);
+                // the same against sine and cosine of the angle actually passed (evaluated in f64 from the exactly converted argument): a few
+                // epsilon whatever the number of turns -- the grid expectation above has to allow for the rounding of j pi/4 itself
+                {
+                    let (sr, cr) = (th as f64).sin_cos();
+                    let refm: [f64; 9] = match ax { "X" => [1.0, 0.0, 0.0, 0.0, cr, sr, 0.0, -sr, cr], "Y" => [cr, 0.0, -sr, 0.0, 1.0, 0.0, sr, 0.0, cr], _ => [cr, sr, 0.0, -sr, cr, 0.0, 0.0, 0.0, 1.0] };
+                    let rt = 4.0 * (<$S>::EPSILON as f64);
+                    near($cx, $c, "from_rotation_axis = (cos, sin) of the given angle", stringify!($M3), &refm, &f64s!(m3.to_cols_array()), rt);
+                    near($cx, $c, "from_rotation_axis = (cos, sin) of the given angle", stringify!($M4), &refm, &m3_of4(&f64s!(m4.to_cols_array())), rt);
+                    near($cx, $c, "from_rotation_axis = (cos, sin) of the given angle", stringify!($A3), &refm, &f64s!(a3.to_cols_array())[..9], rt);
+                    near($cx, $c, "from_rotation_axis = (cos, sin) of the given angle", stringify!($Q), &refm, &f64s!($M3::from_quat(q).to_cols_array()), 4.0 * rt);
+                    near($cx, $c, "from_axis_angle = (cos, sin) of the given angle", stringify!($M3), &refm, &f64s!($M3::from_axis_angle(axis, th).to_cols_array()), 2.0 * rt);
+                    near($cx, $c, "from_axis_angle = (cos, sin) of the given angle", stringify!($Q), &refm, &f64s!($M3::from_quat($Q::from_axis_angle(axis, th)).to_cols_array()), 4.0 * rt);
+                }
                 $( let mx = match ax { "X" => $M3X::from_rotation_x(th), "Y" => $M3X::from_rotation_y(th), _ => $M3X::from_rotation_z(th) };
                    near($cx, $c, "from_rotation_axis", stringify!($M3X), &exp, &f64s!(mx.to_cols_array()), tol); )*
                 let m4v = f64s!(m4.to_cols_array());
@@ -132,6 +145,18 @@ macro_rules! run_width {
                 let tol = $tol * (1.0 + j.abs() as f64);
                 let exp = ringv(&$c["exp"]["m"]);
                 near($cx, $c, "from_angle", stringify!($M2), &exp, &f64s!($M2::from_angle(th).to_cols_array()), tol);
+                {
+                    let (sr, cr) = (th as f64).sin_cos();
+                    let refm = [cr, sr, -sr, cr];
+                    let rt = 4.0 * (<$S>::EPSILON as f64);
+                    near($cx, $c, "from_angle = (cos, sin) of the given angle", stringify!($M2), &refm, &f64s!($M2::from_angle(th).to_cols_array()), rt);
+                    near($cx, $c, "from_angle = (cos, sin) of the given angle", stringify!($V2), &refm[..2], &f64s!($V2::from_angle(th).to_array()), rt);
+                    near($cx, $c, "from_angle = (cos, sin) of the given angle", stringify!($A2), &refm, &f64s!($A2::from_angle(th).to_cols_array())[..4], rt);
+                    let m3r = f64s!($M3::from_angle(th).to_cols_array());
+                    near($cx, $c, "from_angle = (cos, sin) of the given angle", stringify!($M3), &refm, &[m3r[0], m3r[1], m3r[3], m3r[4]], rt);
+                    $( let m3x = f64s!($M3X::from_angle(th).to_cols_array());
+                       near($cx, $c, "from_angle = (cos, sin) of the given angle", stringify!($M3X), &refm, &[m3x[0], m3x[1], m3x[3], m3x[4]], rt); )*
+                }
                 near($cx, $c, "from_angle", stringify!($V2), &exp[..2], &f64s!($V2::from_angle(th).to_array()), tol);
                 let a2 = f64s!($A2::from_angle(th).to_cols_array());
                 near($cx, $c, "from_angle", stringify!($A2), &exp, &a2[..4], tol);
@@ -253,10 +278,26 @@ macro_rules! run_srt {
             }
         } else {
             let j = $c["j"].as_i64().unwrap();
-            let th = (j as $S) * $PI4;
+            let dk = $c["dk"].as_i64().unwrap_or(0) as i32;
+            let th = (j as $S) * $PI4 + if dk > 0 { (2.0 as $S).powi(-dk) } else { 0.0 };
             let s = $V2::new(sc[0] as $S, sc[1] as $S);
             let t = $V2::new(tr[0] as $S, tr[1] as $S);
             let a2 = $A2::from_scale_angle_translation(s, th, t);
+            if dk > 0 {
+                // just off the grid: no exact expectation, the round trip decides (to a few epsilon of the largest scale: the angle comes
+                // from atan2 of two entries with a relative error of a few epsilon each, so it is accurate to a few epsilon absolutely)
+                let a2v = f64s!(a2.to_cols_array());
+                let (s2, an2, t2) = a2.to_scale_angle_translation();
+                let rt = 16.0 * (<$S>::EPSILON as f64) * smax;
+                near($cx, $c, "to_scale_angle_translation: translation", stringify!($A2), &tr, &f64s!(t2.to_array()), 0.0);
+                let neg = (sc[0] < 0.0) != (sc[1] < 0.0);
+                near($cx, $c, "to_scale_angle_translation: scale (off-grid angle)", stringify!($A2), &[if neg { -sc[0].abs() } else { sc[0].abs() }, sc[1].abs()], &f64s!(s2.to_array()), rt);
+                let back = f64s!($A2::from_scale_angle_translation(s2, an2, t2).to_cols_array());
+                near($cx, $c, "to_scale_angle_translation -> recompose (off-grid angle)", stringify!($A2), &a2v[..4], &back[..4], rt);
+                // and the constructors agree with each other there
+                near($cx, $c, "from_scale_angle_translation (off-grid angle)", stringify!($M3), &[a2v[0], a2v[1], 0.0, a2v[2], a2v[3], 0.0, tr[0], tr[1], 1.0], &f64s!($M3::from_scale_angle_translation(s, th, t).to_cols_array()), rt);
+                near($cx, $c, "from_scale_angle (off-grid angle)", stringify!($M2), &a2v[..4], &f64s!($M2::from_scale_angle(s, th).to_cols_array()), rt);
+            } else {
             let a2v = f64s!(a2.to_cols_array());
             near($cx, $c, "from_scale_angle_translation linear", stringify!($A2), &lin, &a2v[..4], tol);
             near($cx, $c, "from_scale_angle_translation translation", stringify!($A2), &tr, &a2v[4..], 0.0);
@@ -281,6 +322,7 @@ macro_rules! run_srt {
             near($cx, $c, "to_scale_angle_translation: translation", stringify!($A2), &tr, &f64s!(t2.to_array()), 0.0);
             let back = f64s!($A2::from_scale_angle_translation(s2, an2, t2).to_cols_array());
             near($cx, $c, "to_scale_angle_translation -> recompose", stringify!($A2), &lin, &back[..4], tol * 4.0);
+            }
         }
     }};
 }
